@@ -65,6 +65,7 @@ pub fn record_solver_run(agg: &mut Agg, sc: &Scenario, out: &Outcome, viol: &[Vi
     agg.add("fringe_coalesced_diff_ub", out.fringe.coalesced_diff_ub as u64);
     agg.max("fringe_len", out.fringe.max_len as u64);
     for (k, n) in out.counters.iter() { agg.add(k, *n as u64); }
+    agg.hit("probe:merged_state_equal_to_a_kept_node(recycled)", out.counters.iter().any(|c| c.0 == "mon_recycled_merges" && c.1 > 0));
     let fired_faults = |k: &str| out.counters.iter().find(|c| c.0 == k).map_or(0, |c| c.1);
     agg.hit("fault:cache_lossy_fired", fired_faults("cache_dropped") > 0);
     agg.hit("fault:dominance_weak_fired", fired_faults("dom_weakened") > 0);
@@ -129,8 +130,9 @@ pub fn run_scenario(sc: &Scenario, run: u64, agg: &mut Agg, pre: &dyn Fn(&Scenar
 
 /// C05 (sequential) + C19: for one sampled (instance, configuration) the uninterrupted run gives K polls,
 /// then every cutoff index k in 1..=K+1 is executed (fault enumeration over the crash point).
-pub fn run_seq_sweep(seed: u64, run: u64, agg: &mut Agg, explicit: Option<&Scenario>) -> Option<ViolationRecord> {
-    let base = match explicit { Some(s) => s.clone(), None => { let mut s = solve::generate("seq-sweep", seed, ArmOpts { perturb: false, ..Default::default() }); s.cut = CutPlan::Never; s } };
+pub fn run_seq_sweep(arm: &str, seed: u64, run: u64, agg: &mut Agg, explicit: Option<&Scenario>) -> Option<ViolationRecord> {
+    let opts = if arm == "seq-sweep-nodup" { ArmOpts { force_nodup: true, reconverge: true, force_cache: Some(false), ..Default::default() } } else { ArmOpts::default() };
+    let base = match explicit { Some(s) => s.clone(), None => { let mut s = solve::generate(arm, seed, opts); s.cut = CutPlan::Never; s } };
     let mut viol: Vec<Violation> = vec![];
     let full = solve::execute(&base);
     let fv = solve::judge(&base, &full);
@@ -172,11 +174,11 @@ pub fn run_seq_sweep(seed: u64, run: u64, agg: &mut Agg, explicit: Option<&Scena
         if exact_from.is_none() { viol.push(Violation { props: vec!["C19".into()], class: "never-exact".into(), msg: format!("the run with the cutoff beyond the last poll ({}) is not exact", k_full + 1) }); }
         agg.hit("probe:nodup_coalesced_diff_ub", full.fringe.coalesced_diff_ub > 0);
     }
-    agg.sample(|| json!({"arm": "seq-sweep", "seed": seed, "instance": {"n": base.table.n, "s": base.table.s, "next": base.table.next, "cost": base.table.cost, "v0": base.table.v0},
+    agg.sample(|| json!({"arm": arm, "seed": seed, "instance": {"n": base.table.n, "s": base.table.s, "next": base.table.next, "cost": base.table.cost, "v0": base.table.v0},
         "config": {"dd": base.dd, "cache": base.cache, "nodup": base.nodup, "width": base.width, "dominance": base.dominance}, "optimum": opt,
         "series(k,lb,ub,exact)": series.iter().take(40).collect::<Vec<_>>() }));
     viol.dedup_by(|a, b| a.class == b.class && a.props == b.props);
-    if viol.is_empty() { None } else { Some(ViolationRecord { arm: "seq-sweep".into(), seed, run, violations: viol, replay: json!({"kind": "seq-sweep", "scenario": base}) }) }
+    if viol.is_empty() { None } else { Some(ViolationRecord { arm: arm.into(), seed, run, violations: viol, replay: json!({"kind": "seq-sweep", "scenario": base}) }) }
 }
 
 pub fn is_pooled_longarc(sc: &Scenario) -> bool { sc.dd == Dd::Pooled && sc.table.irrelevant.iter().any(|r| r.iter().any(|x| *x)) }
